@@ -5,6 +5,7 @@ per line. `arcadrv <command> [args]`.
 import Arca.Driver.Loop
 import Arca.Driver.Builtins
 import Arca.Driver.Parse
+import Arca.Driver.Provider
 
 open Lean (Json)
 open Arca.Driver
@@ -33,4 +34,5 @@ def main (args : List String) : IO UInt32 := do
   | "loop" :: rest => cmdLoop rest; return 0
   | "builtins" :: rest => cmdBuiltins rest; return 0
   | "parse" :: rest => cmdParse rest; return 0
+  | "provider" :: rest => cmdProvider rest; return 0
   | _ => IO.eprintln "usage: arcadrv loop [errCap]"; return 2
